@@ -119,6 +119,50 @@ pub fn c09(tier: &str, seed: u64) {
       });
     }
   }
+  // 2b. well-formed shares whose COORDINATES are extreme but valid field elements (0, 1, p-1, 2^64,
+  //     2^128, another share's point) in the first / second / last position: interpolation divides
+  //     by differences and products of the points it is given
+  {
+    use crate::s_fp::le24;
+    let special: Vec<[u8; 24]> = vec![le24(0, 0), le24(1, 0), le24(12450, 1), le24(1u128 << 64, 0), le24(0, 1), le24(u128::MAX, 0), le24(2, 0)];
+    for round in 0..(if quick(tier) { 40 } else { 600 }) {
+      let t = g.range(1, 5) as u32;
+      let (m, e) = (g.blob(5), g.blob(2));
+      let mut bs: Vec<Vec<u8>> = (0..t + 1).map(|_| make_client(&m, &e, t, None, None).msg.share.to_bytes()).collect();
+      let npos = g.range(1, 2) as usize;
+      for _ in 0..npos {
+        let pos = *g.pick(&[0usize, 1, t as usize]) % bs.len();
+        let v = if round % 7 == 3 { bs[(pos + 1) % bs.len()][8..32].to_vec() } else { g.pick(&special).to_vec() };
+        // x coordinate, or (less often) the first y coordinate
+        let off = if g.chance(3, 4) { 8 } else { 32 };
+        bs[pos][off..off + 24].copy_from_slice(&v);
+      }
+      if g.chance(1, 3) {
+        bs.truncate(t as usize);
+      }
+      let parsed: Option<Vec<sta_rs::Share>> = bs.iter().map(|b| sta_rs::Share::from_bytes(b)).collect();
+      if let Some(p) = parsed {
+        let hs = hexlist(&bs);
+        no_panic("sta_rs::share_recover", &[("shares", hs), ("what", "extreme but valid coordinates".into())], move || {
+          let _ = sta_rs::share_recover(&p);
+        });
+        stat("oracle.recover.extreme_coordinates");
+      }
+      // the sharks layer directly, points only
+      let k = g.range(1, 4) as usize;
+      let mut raw: Vec<Vec<u8>> = Vec::new();
+      for _ in 0..k {
+        let mut b = g.pick(&special).to_vec();
+        b.extend(g.pick(&special).to_vec());
+        raw.push(b);
+      }
+      let shs: Vec<star_sharks::Share> = raw.iter().map(|b| star_sharks::Share::try_from(&b[..]).unwrap()).collect();
+      let tt = g.range(0, k as u64 + 1) as u32;
+      no_panic("star_sharks::Sharks::recover", &[("threshold", tt.to_string()), ("shares", hexlist(&raw))], move || {
+        let _ = star_sharks::Sharks(tt).recover(&shs);
+      });
+    }
+  }
   no_panic("sta_rs::share_recover", &[("shares", "(empty)".into())], || {
     let _ = sta_rs::share_recover(&[]);
   });
